@@ -1,6 +1,7 @@
 (* C07 — YAML in UTF-16/UTF-32 translates exactly like the same text in UTF-8.
-   Pinned statements only; proofs are in theories/UtfProofs.v. *)
-From XtModel Require Import Base Utf8 UtfModel UtfProofs.
+   Pinned statements only; proofs are in theories/UtfProofs.v and
+   theories/UtfStreamProofs.v. *)
+From XtModel Require Import Base Utf8 UtfModel UtfProofs UtfStreamProofs.
 
 (* Ill-formed input never turns into fabricated characters: every value the
    UTF-16 decoder turns into a char (both from_u32_unchecked sites) is a Unicode
@@ -37,3 +38,45 @@ Theorem C07_detect_utf32 :
   forall (bg : bool) (cs : list N),
     starts_ok cs -> detect (firstn 4 (utf32_encode bg cs)) = if bg then Utf32Big else Utf32Little.
 Proof. exact detect_utf32. Qed.
+
+(* The whole stream.  For every text (any list of Unicode scalar values), in
+   UTF-16 or UTF-32, big- or little-endian, with or without a leading U+FEFF,
+   and for EVERY sequence of read-buffer sizes libyaml might use (so characters
+   and their UTF-8 expansions are cut wherever the buffer ends fall): what is
+   read through the re-encoder is a prefix of the UTF-8 of the text (less one
+   leading byte order mark), reading never fails, and when it reaches the end of
+   the stream it has delivered exactly that UTF-8 - the same bytes the UTF-8
+   form of the document gives the parser. *)
+Theorem C07_reencoded_stream_exact :
+  forall (w bg : bool) (cs : list N) (sizes : list nat),
+    scalars cs ->
+    let r := read_seq (encoder_new (encode_as w bg cs) (enc_of w bg)) sizes in
+    prefix_of (fst r) (utf8_encode_all (strip_bom cs)) /\
+    (forall err, snd r <> Failed err) /\
+    (snd r = AtEof -> fst r = utf8_encode_all (strip_bom cs)).
+Proof. exact reencoded_stream_exact. Qed.
+
+(* The same when the encoding is not named but detected from the first bytes
+   (Encoder::from_reader), for every text that starts like YAML. *)
+Theorem C07_reencoded_stream_detected :
+  forall (w bg : bool) (cs : list N) (sizes : list nat),
+    scalars cs -> starts_ok cs ->
+    let r := read_seq (encoder_from_reader (encode_as w bg cs)) sizes in
+    prefix_of (fst r) (utf8_encode_all (strip_bom cs)) /\
+    (forall err, snd r <> Failed err) /\
+    (snd r = AtEof -> fst r = utf8_encode_all (strip_bom cs)).
+Proof. exact reencoded_stream_detected. Qed.
+
+(* The converse, for ALL input bytes: if reading through the re-encoder reaches
+   the end of the stream without an error, the input is the UTF-16/32 encoding
+   of a sequence of scalar values and the bytes read are the UTF-8 of exactly
+   that sequence.  Ill-formed input (unpaired or reversed surrogates, a
+   truncated code unit, a value above U+10FFFF or in the surrogate range) is
+   therefore always reported as an error, and no input is ever turned into
+   characters it does not encode. *)
+Theorem C07_success_means_wellformed :
+  forall (w bg : bool) (input : bytes) (sizes : list nat) (out : bytes),
+    bytes_lt input ->
+    read_seq (encoder_new input (enc_of w bg)) sizes = (out, AtEof) ->
+    exists cs : list N, scalars cs /\ input = encode_as w bg cs /\ out = utf8_encode_all (strip_bom cs).
+Proof. exact reencoded_success_means_wellformed. Qed.
